@@ -14,12 +14,15 @@ def dupFree (l : List Str) : Bool :=
 
 def stdKeyChar (c : Char) : Bool := c.isUpper || c.isDigit || c = '-' || c = '_'
 
+/-- FITS header text: printable ASCII only -/
+def printable (s : Str) : Bool := s.all fun c => 32 ≤ c.toNat && c.toNat ≤ 126
+
 /-- Scope of the abstract cfitsio model: stores for which `findCard` (first match from the top), plain
     integer syntax and the injected `parseD` are claimed to agree with cfitsio.  Everything else is reported
     as `unmodelled` by the driver and covered by the sanitizer battery only. -/
 def modelledHdu (E : Ext) (h : Hdu) : Bool :=
   let keys := h.cards.map (·.key)
-  h.cards.all (fun c => c.key.all stdKeyChar)
+  h.cards.all (fun c => c.key.all stdKeyChar && printable c.val && printable c.com)
   && !(keys.any fun k => scalingKeys.any (·.toList == k))
   && dupFree (keys.filter fun k => !(k == "COMMENT".toList || k == "HISTORY".toList || k == []))
   && h.cards.all (fun c =>
